@@ -315,6 +315,26 @@ type Machine struct {
 	pcSet    map[*smt.Term]bool
 	// isAssumption marks path-condition conjuncts that come from vx.Assume
 	isAssumption map[*smt.Term]bool
+	// pins keeps every object whose address names per-path model state
+	// (addrKey) reachable for the lifetime of the path
+	pins map[*Value]struct{}
+}
+
+// addrKey names the per-path model state (m.env) attached to the object p
+// points to: a bytes.Buffer's content, a sync.Map's table, a sync.Once's done
+// flag, ... The key is the object's address, so the object is pinned: were it
+// collected while the path is still running, Go could hand the same address
+// to a later allocation of the interpreted program, which would then inherit
+// the dead object's state (a fresh bytes.Buffer starting with the bytes of an
+// earlier one). Whether and when that happens depends on the collector, i.e.
+// on memory pressure and timing - it showed up as rare, irreproducible
+// "counterexamples" of ZZ_C15_Layout.
+func (m *Machine) addrKey(kind string, p *Value) string {
+	if m.pins == nil {
+		m.pins = map[*Value]struct{}{}
+	}
+	m.pins[p] = struct{}{}
+	return fmt.Sprintf("%s:%p", kind, p)
 }
 
 type lockState struct {
